@@ -2,6 +2,7 @@ package json
 
 import (
 	"bytes"
+	"errors"
 
 	"github.com/go-json-experiment/json/internal/jsonflags"
 	"github.com/go-json-experiment/json/internal/zzverif/vrt"
@@ -110,5 +111,48 @@ func VerifC19ScopeNilEmbedded(tmpl string, withCallOption bool) {
 	vrt.Assert("C19/scope/decoder-flags-restored", xd.Struct.Flags == before.Flags)
 	vrt.Assert("C19/scope/decoder-values-restored", xd.Struct.Format == before.Format)
 	sn, ok := GetOption(dec.Options(), StringifyNumbers)
+	vrt.Assert("C19/scope/tag-flag-not-leaked", !sn && !ok)
+}
+
+type zz19Fail struct{ ok bool }
+
+var zz19ErrFail = errors.New("zz19: user marshaler fails")
+
+func (f zz19Fail) MarshalJSONTo(enc *jsontext.Encoder) error {
+	if f.ok {
+		return enc.WriteToken(jsontext.Uint(1))
+	}
+	return zz19ErrFail
+}
+
+type zz19MF struct {
+	A int8     `json:"a,string"`
+	F zz19Fail `json:"f,string"`
+	B int8     `json:"b"`
+}
+
+// VerifC19ScopeMarshalFail: MarshalEncode on a caller-owned Encoder of a struct whose
+// string-tagged member fails (or not, as the solver chooses) to marshal: the encoder's own
+// options are intact afterwards.
+func VerifC19ScopeMarshalFail(withCallOption bool) {
+	w := new(zz19Sink)
+	enc := jsontext.NewEncoder(w, jsontext.AllowDuplicateNames(true))
+	xe := export.Encoder(enc)
+	before := xe.Struct
+	v := zz19MF{A: 1, F: zz19Fail{ok: vrt.Bool("ok")}, B: 7}
+	var err error
+	if withCallOption {
+		err = MarshalEncode(enc, &v, Deterministic(true))
+	} else {
+		err = MarshalEncode(enc, &v)
+	}
+	if err != nil {
+		vrt.Cover("failed")
+	} else {
+		vrt.Cover("succeeded")
+	}
+	vrt.Assert("C19/scope/encoder-flags-restored", xe.Struct.Flags == before.Flags)
+	vrt.Assert("C19/scope/encoder-values-restored", xe.Struct.Format == before.Format)
+	sn, ok := GetOption(enc.Options(), StringifyNumbers)
 	vrt.Assert("C19/scope/tag-flag-not-leaked", !sn && !ok)
 }
